@@ -5,13 +5,13 @@
      * the definitions GENERATED from orix/vector/miller.py (coq/Gen/C09Miller.v):
        uvw2UVTW UVTW2uvw hkl2hkil hkil2hkl (+ mtex convention), check_UVTW,
        check_hkil, transform_space, cross_format, fmt_space;
-     * the hand-written model (Model/C09.v) of diffpy's setLatBase / reciprocal(),
+     * the hand-written model (Model/C09Model.v) of diffpy's setLatBase / reciprocal(),
        _new_structure_matrix_from_alignment, the Phase.structure setter and the
        Miller object, tied to the code by the correspondence check,
    instantiated on the real numbers.  [lattice_of_base A = Ok L] says: L is the
    lattice object a Phase holds after diffpy accepted the base A (rows a, b, c). *)
 From Coq Require Import Reals List Bool.
-From Verif Require Import Scalar RInst C09Lin C09Miller C09.
+From Verif Require Import Scalar RInst C09Lin C09Miller C09Model.
 From Verif Require Import C09LinAlg C09Alg C09Align C09Obj C09Main.
 Import ListNotations.
 Local Open Scope R_scope.
@@ -189,7 +189,7 @@ Print Assumptions C09_dspacing.
 
 Theorem C09_cross_perpendicular : forall u v : vec3 R,
   vdot ROps (vcross ROps u v) u = 0 /\ vdot ROps (vcross ROps u v) v = 0.
-Proof. intros u v; split; [exact (vcross_perp_l u v) | exact (vcross_perp_r u v)]. Qed.
+Proof. exact m_cross_perp. Qed.
 Print Assumptions C09_cross_perpendicular.
 
 (* Miller.cross outside the "xyz" format: result is x1 x x2, reported in the dual
@@ -292,10 +292,7 @@ Theorem C09_align_lefthanded : forall (A N : mat3 R) (fracs : list (vec3 R)),
   mdet ROps A < 0 -> align ROps A = Ok N ->
   (exists z : R, vmat ROps (0, 0, 1) (mtr (minv ROps N)) = (0, 0, z) /\ z < 0) /\
   set_structure ROps A fracs = Err LatticeError.
-Proof.
-  intros A N fracs H HN; split;
-    [exact (align_cstar_lefthanded A N H HN) | exact (m_set_structure_lefthanded A fracs H)].
-Qed.
+Proof. exact m_align_lefthanded. Qed.
 Print Assumptions C09_align_lefthanded.
 
 (* ================= the Miller object ================= *)
@@ -341,6 +338,15 @@ Theorem C09_arrays_elementwise : forall (A : mat3 R) (f : fmt) (xs : list (vec3 
               exists c, nth_error cs i = Some c /\ coords ROps (Lat A) f x = Ok c.
 Proof. exact coords_arr_elementwise. Qed.
 Print Assumptions C09_arrays_elementwise.
+
+Theorem C09_transform_arrays_elementwise :
+  forall (L : lattice R) (si so : space) (vs ws : list (vec3 R)),
+  transform_space_arr ROps L si so vs = Ok ws ->
+  length ws = length vs /\
+  forall i v, nth_error vs i = Some v ->
+              exists w, nth_error ws i = Some w /\ transform_space ROps L si so v = Ok w.
+Proof. exact transform_arr_elementwise. Qed.
+Print Assumptions C09_transform_arrays_elementwise.
 
 (* ================= non-vacuity ================= *)
 
